@@ -118,11 +118,11 @@ def unpack(sequence, context, *args):
         yaql> [2, 3].unpack() -> $1 + $2
         5
     """
-    lst = tuple(itertools.islice(sequence, len(args) + 1))
-    if 0 < len(args) != len(lst):
-        raise ValueError('Cannot unpack {} elements into {}'.format(
-            len(lst), len(args)))
     if len(args) > 0:
+        lst = tuple(itertools.islice(sequence, len(args) + 1))
+        if len(args) != len(lst):
+            raise ValueError('Cannot unpack {} elements into {}'.format(
+                len(lst), len(args)))
         for i in range(len(lst)):
             context[args[i]] = lst[i]
     else:
